@@ -382,3 +382,82 @@ def inline_locals(fn, expr, depth=6):
                 return ast.Name(id="%s{%s}" % (node.id, alts), ctx=ast.Load())
             return node
     return src(T(depth).visit(_fresh(expr)))
+
+
+def fold_str(fn, expr, depth=6, env=None):
+    """A string-valued expression folded to one template string, or None: constants, `+`, `* <int>`, single-definition locals, f-strings
+    (`{expr:spec}` pieces kept as text), `"outer %%d" % (a, b)` with the conversions of the outer string replaced by `{a}` `{b}`,
+    and `"".join([<f-string> for <vars> in <constant list>])` expanded element by element."""
+    env = env or {}
+    if depth < 0 or expr is None:
+        return None
+    if isinstance(expr, ast.Constant):
+        return expr.value if isinstance(expr.value, str) else None
+    if isinstance(expr, ast.Name):
+        if expr.id in env:
+            return None
+        ds = local_defs(fn).get(expr.id, [])
+        return fold_str(fn, ds[0], depth - 1, env) if len(ds) == 1 and ds[0] is not None else None
+    if isinstance(expr, ast.JoinedStr):
+        out = ""
+        for v in expr.values:
+            if isinstance(v, ast.Constant):
+                out += str(v.value)
+            elif isinstance(v, ast.FormattedValue):
+                e = v.value
+                if env:
+                    class _Sub(ast.NodeTransformer):
+                        def visit_Name(self, node):
+                            return ast.Constant(value=env[node.id]) if node.id in env else node
+                    e = _Sub().visit(ast.parse(src(e), mode="eval").body)
+                spec = fold_str(fn, v.format_spec, depth - 1, env) if v.format_spec is not None else None
+                out += "{" + src(e) + ((":" + spec) if spec else "") + "}"
+        return out
+    if isinstance(expr, ast.BinOp):
+        if isinstance(expr.op, ast.Add):
+            a, b = fold_str(fn, expr.left, depth - 1, env), fold_str(fn, expr.right, depth - 1, env)
+            return a + b if a is not None and b is not None else None
+        if isinstance(expr.op, ast.Mult):
+            for s_, k_ in ((expr.left, expr.right), (expr.right, expr.left)):
+                if isinstance(k_, ast.Constant) and isinstance(k_.value, int):
+                    a = fold_str(fn, s_, depth - 1, env)
+                    return a * k_.value if a is not None else None
+            return None
+        if isinstance(expr.op, ast.Mod):
+            outer = fold_str(fn, expr.left, depth - 1, env)
+            if outer is None:
+                return None
+            args = [src(e) for e in expr.right.elts] if isinstance(expr.right, ast.Tuple) else [src(expr.right)]
+            it = iter(args)
+            import re as _re
+            marked = outer.replace("%%", "\\x00")
+            marked = _re.sub(r"%[-0-9.]*[dsfgrei]", lambda m: "{" + next(it, "?") + "}", marked)
+            return marked.replace("\\x00", "%")
+    if isinstance(expr, ast.Call) and isinstance(expr.func, ast.Attribute) and expr.func.attr == "join" and isinstance(expr.func.value, ast.Constant) and expr.args:
+        sep = expr.func.value.value
+        a = expr.args[0]
+        if isinstance(a, (ast.ListComp, ast.GeneratorExp)) and len(a.generators) == 1 and not a.generators[0].ifs:
+            g = a.generators[0]
+            it = g.iter
+            if isinstance(it, ast.Name):
+                ds = local_defs(fn).get(it.id, [])
+                it = ds[0] if len(ds) == 1 else None
+            items = const(it) if it is not None else None
+            if items is None:
+                return None
+            parts = []
+            for item in items:
+                tv = g.target
+                names = [tv.id] if isinstance(tv, ast.Name) else [e.id for e in tv.elts if isinstance(e, ast.Name)] if isinstance(tv, ast.Tuple) else None
+                if names is None:
+                    return None
+                vals = [item] if isinstance(tv, ast.Name) else list(item)
+                p_ = fold_str(fn, a.elt, depth - 1, dict(env, **dict(zip(names, vals))))
+                if p_ is None:
+                    return None
+                parts.append(p_)
+            return sep.join(parts)
+        if isinstance(a, (ast.List, ast.Tuple)):
+            parts = [fold_str(fn, e, depth - 1, env) for e in a.elts]
+            return sep.join(parts) if all(p_ is not None for p_ in parts) else None
+    return None
